@@ -1,10 +1,14 @@
 import SnootyVerif.Drv.C09
 open Lean SnootyVerif.Drv
 
+/-- every `Drv/Cxx.lean` exports `ops`; add the import above and one line here. -/
+def allOps : List (String × (Json → Except String Json)) :=
+  C09.ops
+
 def dispatch (op : String) (j : Json) : Except String Json :=
-  match op with
-  | "c09.page" => C09.page j
-  | _ => .error s!"unknown op {op}"
+  match allOps.lookup op with
+  | some f => f j
+  | none => .error s!"unknown op {op}"
 
 def handleLine (line : String) : String :=
   match Json.parse line with
